@@ -403,6 +403,187 @@ fn gen_graph(r: &mut Rng) -> (String, AdjGraph) {
     (name.to_string(), g)
 }
 
+/// Which of the two cap-sensitive families (docs/C05.md, "Correspondence").
+#[derive(Clone, Copy, PartialEq)]
+enum CapFam {
+    /// a part holds no weight (unused id below the maximum, or only zero-weight vertices)
+    Weightless,
+    /// the input is already beyond the tolerance: heaviest part above (1+x)*ideal
+    Beyond,
+}
+
+/// `max_part_weight` of arc_swap for W = i64
+fn cap_i64(loads: &[i64], mi: Option<f64>) -> i64 {
+    match mi {
+        None => *loads.iter().max().unwrap(),
+        Some(x) => {
+            let ideal = loads.iter().sum::<i64>() as f64 / loads.len() as f64;
+            (ideal + x * ideal) as i64
+        }
+    }
+}
+
+/// Inputs on which the value of the cap decides: some vertex `v` has a positive gain towards a
+/// part `q` that sits at the cap (`load[q] <= cap < load[q] + w[v]`, so the move must be
+/// refused), while a looser cap (heaviest input part / ideal taken over the loaded parts only)
+/// would leave every worker enough headroom to make it.  Rejection sampling; the returned flag
+/// says whether the predicate holds for the returned case.
+fn gen_cap_case(r: &mut Rng, fam: CapFam) -> (Case, bool) {
+    let mut best: Option<Case> = None;
+    for _try in 0..300 {
+        let n = r.range(5, 8) as usize;
+        let mut g = AdjGraph::new(n);
+        let gname = match r.below(4) {
+            0 => {
+                for i in 0..n - 1 {
+                    g.edge(i, i + 1, r.range(1, 3));
+                }
+                "path"
+            }
+            1 => {
+                for i in 0..n {
+                    g.edge(i, (i + 1) % n, r.range(1, 2));
+                }
+                "cycle"
+            }
+            2 => {
+                let h = n / 2;
+                for i in 0..h {
+                    if i + 1 < h {
+                        g.edge(i, i + 1, 1);
+                        g.edge(h + i, h + i + 1, 1);
+                    }
+                    g.edge(i, h + i, 1);
+                }
+                "grid2"
+            }
+            _ => {
+                for a in 0..n {
+                    for b in 0..a {
+                        if r.below(100) < 50 {
+                            g.edge(a, b, r.range(1, 3));
+                        }
+                    }
+                }
+                "random"
+            }
+        };
+        for row in g.rows.iter_mut() {
+            row.sort();
+        }
+        let k = r.range(2, 4) as usize;
+        // light movable vertices, a few heavy anchors
+        let mut vw: Vec<i64> = (0..n).map(|_| if r.chance(1, 3) { r.range(4, 12) } else { r.range(1, 2) }).collect();
+        let mut p0: Vec<usize> = (0..n).map(|i| if r.chance(1, 3) { r.below(k as u64) as usize } else { i % k }).collect();
+        if fam == CapFam::Weightless {
+            let z = r.below(k as u64) as usize; // the weightless part
+            if r.chance(1, 2) && k >= 3 && z + 1 < k {
+                // unused id below the maximum
+                for x in p0.iter_mut() {
+                    if *x == z {
+                        *x = k - 1;
+                    }
+                }
+                p0[n - 1] = k - 1;
+            } else {
+                // present, but all its vertices weigh nothing
+                p0[r.below(n as u64) as usize] = z;
+                for i in 0..n {
+                    if p0[i] == z {
+                        vw[i] = 0;
+                    }
+                }
+                if !p0.contains(&(k - 1)) {
+                    p0[n - 1] = k - 1;
+                    if z == k - 1 {
+                        vw[n - 1] = 0;
+                    }
+                }
+            }
+        }
+        let kk = usize::max(2, 1 + *p0.iter().max().unwrap());
+        let mut loads = vec![0i64; kk];
+        for i in 0..n {
+            loads[p0[i]] += vw[i];
+        }
+        let total: i64 = loads.iter().sum();
+        if total == 0 {
+            continue;
+        }
+        let ideal = total as f64 / kk as f64;
+        let threads = *r.pick(&[1usize, 2, 2, 3]);
+        let tc = work_share(n, threads).1 as i64;
+        // candidate (v, q): positive gain on the input partition
+        let mut cands = vec![];
+        for v in 0..n {
+            for q in 0..kk {
+                if q == p0[v] {
+                    continue;
+                }
+                let gain: i64 = g.rows[v]
+                    .iter()
+                    .map(|(u, w)| if p0[*u] == p0[v] { -*w } else if p0[*u] == q { *w } else { 0 })
+                    .sum();
+                if gain > 0 && vw[v] > 0 {
+                    cands.push((v, q));
+                }
+            }
+        }
+        if cands.is_empty() {
+            continue;
+        }
+        let (v, q) = cands[r.below(cands.len() as u64) as usize];
+        // put part q at the cap: Some(0.0) when that already does it, else the x that does
+        let mi = if (ideal as i64) == loads[q] && r.chance(1, 2) {
+            Some(0.0)
+        } else if loads[q] as f64 >= ideal {
+            Some((loads[q] as f64 + 0.5) / ideal - 1.0)
+        } else {
+            continue;
+        };
+        let cap = cap_i64(&loads, mi);
+        let heaviest = *loads.iter().max().unwrap();
+        let loaded = loads.iter().filter(|x| **x != 0).count().max(1);
+        let loose_ideal = total as f64 / loaded as f64;
+        let loose = i64::max(heaviest, (loose_ideal + mi.unwrap() * loose_ideal) as i64);
+        let at_cap = loads[q] <= cap && cap < loads[q] + vw[v];
+        let looser_allows = (loose - loads[q]) / tc >= vw[v];
+        let fam_ok = match fam {
+            CapFam::Weightless => loaded < kk,
+            CapFam::Beyond => heaviest > cap,
+        };
+        let policy = match r.below(4) {
+            0 => Policy::Uniform,
+            1 => Policy::RoundRobin,
+            2 => Policy::Adversarial,
+            _ => Policy::Bursts,
+        };
+        let c = Case {
+            family: format!("{}_{}", if fam == CapFam::Weightless { "weightless" } else { "beyondtol" }, gname),
+            g,
+            vw,
+            p0,
+            threads,
+            mi,
+            policy,
+            sseed: r.next(),
+            csr: r.chance(1, 2),
+            unsigned: false,
+            fscale: None,
+        };
+        if at_cap && looser_allows && fam_ok {
+            return (c, true);
+        }
+        if fam_ok && best.is_none() {
+            best = Some(c);
+        }
+    }
+    match best {
+        Some(c) => (c, false),
+        None => (gen_case(r), false),
+    }
+}
+
 fn gen_case(r: &mut Rng) -> Case {
     let (family, g) = gen_graph(r);
     let n = g.rows.len();
@@ -673,6 +854,7 @@ fn main() {
     }
     sweep.truncate(a.cases / 2);
     let mut sweep_cases = 0usize;
+    let mut cap_decides = 0usize;
     for idx in 0..a.cases {
         let mut r = rng.fork();
         let c = if idx < sweep.len() {
@@ -693,7 +875,19 @@ fn main() {
                 fscale: None,
             }
         } else {
-            let mut c = gen_case(&mut r);
+            let mut c = match idx % 10 {
+                3 => {
+                    let (c, ok) = gen_cap_case(&mut r, CapFam::Weightless);
+                    cap_decides += ok as usize;
+                    c
+                }
+                5 => {
+                    let (c, ok) = gen_cap_case(&mut r, CapFam::Beyond);
+                    cap_decides += ok as usize;
+                    c
+                }
+                _ => gen_case(&mut r),
+            };
             if std::env::var("VERIF_C05_UNSIGNED").map(|v| v == "2").unwrap_or(false) {
                 // experiment: unsigned weights where no part is above the cap (any panic is then
                 // the thread-local underflow, which depends on the schedule)
@@ -861,8 +1055,8 @@ fn main() {
         }
     }
     w.finish(&format!(
-        "\"hangs\":{},\"panics\":{},\"systematic_sweep_cases\":{},\"late_starts\":{},\"dead_workers\":{},\"events\":{},\"cases_with_moves\":{},\"cases_with_3plus_passes\":{},\"cases_with_races\":{},\"cases_with_lock_conflicts\":{},\"cases_with_balance_refusals\":{},\"reruns\":{},\"rerun_trace_differs\":{}",
-        hangs, panics, sweep_cases, late, dead, events, moved_cases, multi_pass, raced_cases, locked_cases, balance_cases, rerun, rerun_diff
+        "\"hangs\":{},\"panics\":{},\"systematic_sweep_cases\":{},\"cases_where_the_cap_decides\":{},\"late_starts\":{},\"dead_workers\":{},\"events\":{},\"cases_with_moves\":{},\"cases_with_3plus_passes\":{},\"cases_with_races\":{},\"cases_with_lock_conflicts\":{},\"cases_with_balance_refusals\":{},\"reruns\":{},\"rerun_trace_differs\":{}",
+        hangs, panics, sweep_cases, cap_decides, late, dead, events, moved_cases, multi_pass, raced_cases, locked_cases, balance_cases, rerun, rerun_diff
     ));
 }
 
